@@ -1,0 +1,37 @@
+// Copyright Suneido Software Corp. All rights reserved.
+// Governed by the MIT license found in the LICENSE file.
+
+//go:build verif
+
+// Package verif provides trace events and scheduling gates
+// for external verification harnesses.
+// Without the "verif" build tag it compiles to nothing.
+package verif
+
+import "sync/atomic"
+
+// On is true when built with the verif tag
+const On = true
+
+var seq atomic.Int64
+
+// Sink receives events. It is called synchronously at the hook point
+// (i.e. while the caller still holds whatever lock protects the change).
+var Sink atomic.Pointer[func(seq int64, ev string, kv []any)]
+
+// GateFn, if set, is called at scheduling points and may block.
+var GateFn atomic.Pointer[func(point string, kv []any)]
+
+// Event reports an event to Sink with a global sequence number
+func Event(ev string, kv ...any) {
+	if f := Sink.Load(); f != nil {
+		(*f)(seq.Add(1), ev, kv)
+	}
+}
+
+// Gate is a scheduling point
+func Gate(point string, kv ...any) {
+	if f := GateFn.Load(); f != nil {
+		(*f)(point, kv)
+	}
+}
